@@ -310,6 +310,47 @@ def oracle_A3(seed, max_n=30):
     return fails
 
 
+def oracle_A4(seed, max_n=30):
+    """a second rescaling in the same direction is refused — also when the chain was extended by a column in between
+    (fill_default / fill_default_array on a rescaled chain): the stored ranges of the rescaled columns stay what they were"""
+    import random
+    rng = random.Random(seed)
+    Chain = _chain_mod().Chain
+    fails = []
+    npar = rng.randint(1, 3)
+    names = rng.sample(NAMES_POOL, npar + 1)
+    new, names = names[-1], names[:-1]
+    n = rng.choice([3, 4, rng.randint(3, max_n)])
+    cols = {k: [float(x) for x in draw_column(rng, n)] for k in names}
+    with warnings.catch_warnings():
+        warnings.simplefilter("ignore")
+        c = Chain("kw", "probe", {k: np.array(v, dtype=float) for k, v in cols.items()}, np.ones(n), "FLCDM", rescale=True)
+        ranges = {k: (float(c.rescale_dic[k][0]), float(c.rescale_dic[k][1])) for k in names}
+        how = rng.choice(["array", "value", "both"])
+        if how in ("array", "both"):
+            c.fill_default_array(new, np.array([float(x) for x in draw_column(rng, n)]))
+        if how == "value":
+            c.create_param(new)
+            c.fill_default(new, rng.uniform(-3, 3))
+        if how == "both":
+            c.create_param(new + "_2")
+            c.fill_default(new + "_2", rng.uniform(-3, 3), nsamples=n)
+        try:
+            c.rescale_to_unity()
+            fails.append(("Chain.rescale_to_unity:second-accepted-after-fill",
+                          "a second rescale_to_unity() was accepted after a column had been added (%s) to the rescaled chain" % how))
+        except RuntimeError:
+            pass
+        except Exception as e:  # noqa
+            fails.append(("Chain.rescale_to_unity:second-after-fill-raised-" + err_enum(e), "second rescale_to_unity() raised %s, not the refusal" % type(e).__name__))
+        for k in names:
+            d = c.rescale_dic.get(k)
+            if d is None or not (close(float(d[0]), ranges[k][0], 0.0) and close(float(d[1]), ranges[k][1], 0.0)):
+                fails.append(("Chain:ranges-lost-after-fill", "stored range of %s changed from %r to %r" % (k, ranges[k], None if d is None else (float(d[0]), float(d[1])))))
+                break
+    return fails
+
+
 def oracle_A2(rng, max_n):
     """histories with a change of units between two rescalings: rescale -> back -> re-express columns
     (affine maps, as when H0 is turned into h or a percentage into a fraction) -> rescale again.
@@ -984,6 +1025,17 @@ def run(ctx, res):
         res.evaluations += 1
         res.count("A3.two-chains-from-the-same-arrays")
         report("A3", fails, {"a3": True, "seed": sd})
+    # ---- A4: a column added between two rescalings (oracle only)
+    for _ in range(ctx.n(40, 400)):
+        sd = rng.randrange(2 ** 30)
+        try:
+            fails = oracle_A4(sd)
+        except Exception as e:  # noqa
+            res.notes.append("A4 could not run: %r" % (e,))
+            continue
+        res.evaluations += 1
+        res.count("A4.column-added-between-rescalings")
+        report("A4", fails, {"a4": True, "seed": sd})
     # ---- B
     for _ in range(ctx.n(200, 3000)):
         c = gen_B(rng)
@@ -1089,6 +1141,8 @@ def replay(ctx, data):
             fails = oracle_A2(random.Random(sd), 30)
             if fails:
                 break
+    elif s == "A4":
+        fails = oracle_A4(inp["case"]["seed"])
     elif s == "A3":
         fails = oracle_A3(inp["case"]["seed"] if "case" in inp and isinstance(inp["case"], dict) and "seed" in inp["case"] else inp.get("seed", 0))
     elif s == "A":
